@@ -201,15 +201,17 @@ def run(ctx):
         fl = dict(o.val[2])
         ids = [a[3] for a, t in o.st.pc if t and a[0] == 'bin' and a[1] == 'Eq' and a[2][0] in ('field', 'vfield') and a[2][-1] == 'id']
         ck, rd = fl.get('cookie'), fl.get('refresh_deletes')
+        # what the components seen so far have left in the two accumulators (loop-carried state of the component loop)
+        cin = [e[2] for e in o.st.ev if e[0] == 'loop-carried' and e[3]['k'] == 'For']
         if ('lit', 4) in ids:
             seen.add('cookie')
-            ok = ck[0] == 'ctor' and ck[1] == 'Some' and absx.leaves(ck, lambda x: x[0] == 'elem') and rd == ('lit', False)
-            ctx.add('Y.syncdone.cookie', 'OCTET STRING', loc(B.root), ok, 'an OCTET STRING component must become the cookie (refreshDeletes keeps its default FALSE)')
+            ok = ck[0] == 'ctor' and ck[1] == 'Some' and absx.leaves(ck, lambda x: x[0] == 'elem') and len(cin) == 2 and rd in cin and rd in (absx.TRUE, absx.FALSE)
+            ctx.add('Y.syncdone.cookie', 'OCTET STRING', loc(B.root), ok, 'an OCTET STRING component must become the cookie and leave refreshDeletes as it was')
         elif ('lit', 1) in ids:
             seen.add('flag')
             idx = absx.leaves(rd, lambda x: x[0] == 'index')
-            ok = rd[0] == 'not' and len(idx) == 1 and idx[0][2] == ('lit', 0) and rd[1] == ('bin', 'Eq', idx[0], ('lit', 0)) and ck == ('ctor', 'None', ())
-            ctx.add('Y.syncdone.refresh-deletes', 'BOOLEAN', loc(B.root), ok, 'a BOOLEAN component must become refreshDeletes = content[0] != 0')
+            ok = rd[0] == 'not' and len(idx) == 1 and idx[0][2] == ('lit', 0) and rd[1] == ('bin', 'Eq', idx[0], ('lit', 0)) and len(cin) == 2 and ck in cin and ck[0] == 'carried'
+            ctx.add('Y.syncdone.refresh-deletes', 'BOOLEAN', loc(B.root), ok, 'a BOOLEAN component must become refreshDeletes = content[0] != 0 and leave the cookie as it was')
     empty = [o for o in absx.Interp(f, B, unroll=1).run() if o.kind in ('val', 'ret') and o.val[0] == 'struct' and dict(o.val[2]).get('cookie') == ('ctor', 'None', ()) and dict(o.val[2]).get('refresh_deletes') == ('lit', False)]
     ctx.add('Y.syncdone.defaults', 'empty sequence', loc(B.root), bool(empty), 'an empty SyncDone value must decode to (no cookie, refreshDeletes FALSE)')
     for need in ('cookie', 'flag'):
